@@ -31,6 +31,16 @@ Driver for component `key` (C03).  A key is two tokens: `<name-hex> <labels>` wi
   leq / lcmp  L L     → 1 | 0  /  lt | eq | gt      `Label == Label`, `Label::cmp`
   scmp S S            → lt | eq | gt                `Ord for SharedString / KeyName` (= `Ord for str`)
   nhash S             → B<hex>,Uff                  calls of `Hash for KeyName` on a recording hasher (= those of `Hash for str`)
+  ops  A B            → <ne> <lt> <le> <gt> <ge> <partial_cmp>   `a != b`, `a < b`, `a <= b`, `a > b`, `a >= b` (1 | 0), `a.partial_cmp(&b)`
+  sel  A B            → <max> <min>                 `a.max(b)` and `a.min(b)`, each as the two key tokens (labels in the order the
+                                                    returned key carries them, which tells the two arguments apart when they are `==`)
+  clamp X LO HI       → <key>                       `x.clamp(lo, hi)` (the harness emits it only when `lo <= hi`)
+  path P|S N L steps… → <key> <hashed> <hash> <get_hash>
+                                                    a key obtained through a construction path: `P` = `from_parts`-like (eager hash),
+                                                    `S` = `from_static_*` (lazy), then steps `c` (clone), `h` (a `get_hash()` call),
+                                                    `r` (`from_parts(into_parts())`), `x <labels>` (`with_extra_labels`).  Answer: its
+                                                    content, its memo fields (`1|0`, then `ok` = the true hash / `zero` / `bad`) and
+                                                    whether `get_hash()` returns the true hash of the content
 -/
 namespace MetricsVerif.Driver.Key
 open MetricsVerif.Driver MetricsVerif.Key
@@ -92,6 +102,21 @@ def grantStep (h : Nat) (s : Sys) (t : Nat) : Sys :=
   | .cloneLabels => step codeOrds h (step codeOrds h (step codeOrds h s t) t) t
   | _ => step codeOrds h s t
 
+def showLabel (l : Label) : String := hexStr l.key ++ ":" ++ hexStr l.value
+
+def showKey (k : MetricsVerif.Key.Key) : String := hexStr k.name ++ " " ++ showList showLabel k.labels
+
+def bit (b : Bool) : String := if b then "1" else "0"
+
+/-- the steps of a `path` op -/
+def pathSteps : Path → List String → Option Path
+  | p, [] => some p
+  | p, "c" :: rest => pathSteps (.clone p) rest
+  | p, "h" :: rest => pathSteps (.hashed p) rest
+  | p, "r" :: rest => pathSteps (.reparts p) rest
+  | p, "x" :: ls :: rest => do pathSteps (.withExtra p (← listTok labelTok ls)) rest
+  | _, _ => none
+
 def handle (args : List String) : Option String :=
   match args with
   | ["eq", na, la, nb, lb] => do
@@ -145,6 +170,28 @@ def handle (args : List String) : Option String :=
       if started.contains t then (grantStep h s t, started, s!"{t}:{pcName (s.pc t)}" :: tr)
       else (s, t :: started, s!"{t}:start" :: tr)) (s0, [], [])
     pure s!"{showList id trace.reverse} {showMixResults s h rs.length}"
+  | ["ops", na, la, nb, lb] => do
+    let a ← keyToks na la
+    let b ← keyToks nb lb
+    let pc ← Key.partialCmp a b
+    pure s!"{bit (Key.ne a b)} {bit (Key.lt a b)} {bit (Key.le a b)} {bit (Key.gt a b)} {bit (Key.ge a b)} {showOrd pc}"
+  | ["sel", na, la, nb, lb] => do
+    let a ← keyToks na la
+    let b ← keyToks nb lb
+    pure s!"{showKey (Key.max a b)} {showKey (Key.min a b)}"
+  | ["clamp", nx, lx, na, la, nb, lb] => do
+    pure (showKey (Key.clamp (← keyToks nx lx) (← keyToks na la) (← keyToks nb lb)))
+  | "path" :: kind :: n :: l :: steps => do
+    let k ← keyToks n l
+    let p0 ← match kind with
+      | "P" => some (Path.fromParts k.name k.labels)
+      | "S" => some (Path.fromStatic k.name k.labels)
+      | _ => none
+    let p ← pathSteps p0 steps
+    let r := p.build demoH
+    let h := generateKeyHash demoH r.key
+    let memo := if r.hash = h then "ok" else if r.hash = 0 then "zero" else "bad"
+    pure s!"{showKey r.key} {bit r.hashed} {memo} {if (r.getHash demoH).1 = h then "ok" else "bad"}"
   | ["ceq", ka, na, la, kb, nb, lb] => do
     pure (if CompositeKey.eq ⟨← kindTok ka, ← keyToks na la⟩ ⟨← kindTok kb, ← keyToks nb lb⟩ then "1" else "0")
   | ["ccmp", ka, na, la, kb, nb, lb] => do
